@@ -63,9 +63,8 @@ Definition eval (a : action) (t1 t2 : core) : option bool :=
   | EVAL_COMM_IPROBE_MBOX => Some (o2 t1 =? o2 t2)
   | EVAL_COMM_TEST_WAIT => Some (tmo t2)
   | EVAL_COMM_WAIT_WAIT => Some (tmo t1 || tmo t2)
-  | EVAL_COMM_RECV_TEST | EVAL_COMM_SEND_TEST =>
+  | EVAL_COMM_RECV_TEST | EVAL_COMM_SEND_TEST =>      (* as repaired by 786c1edee0; the pinned rule is eval_test_pinned *)
       if negb (o2 t1 =? o2 t2) then Some false
-      else if negb (aid t1 =? snd_ t2) && negb (aid t1 =? rcv_ t2) then Some false
       else Some (o1 t2 =? o1 t1)
   | EVAL_COMM_RECV_WAIT | EVAL_COMM_SEND_WAIT =>
       if tmo t2 then Some true
@@ -74,6 +73,13 @@ Definition eval (a : action) (t1 t2 : core) : option bool :=
       else if negb (aid t1 =? aid t2) && negb (o1 t2 =? o1 t1) then Some false
       else Some true
   end.
+
+(** EVAL_COMM_RECV_TEST / EVAL_COMM_SEND_TEST before 786c1edee0: also filtered on the sender and receiver the test
+    reports, which are unknown (-1) when the test ran before the comm was paired *)
+Definition eval_test_pinned (t1 t2 : core) : option bool :=
+  if negb (o2 t1 =? o2 t2) then Some false
+  else if negb (aid t1 =? snd_ t2) && negb (aid t1 =? rcv_ t2) then Some false
+  else Some (o1 t2 =? o1 t1).
 
 Definition lut_get (tbl : list (list action)) (i j : nat) : action :=
   nth j (nth i tbl []) PANIC_NOMC.     (* out of the table: undefined behaviour in C++; the model dies *)
